@@ -35,7 +35,8 @@ var (
 	xssTagForms = []string{"<T>", "<T x>", "<T/>", "<T/x=1>", "<T\tx", "<T", "<T\nx=1>", "<T\fx>", "<T\r>"}
 	xssValForms = []string{"=1", "=alert(1)", "='x'", "=\"x\"", "=`x`", " = 1", "\t=\n1", "=1>", "\f=\r'x'", "=x y"}
 	xssSchemes  = []string{"javascript:alert(1)", "vbscript:x", "data:text/html,x", "view-source:x", "JaVaScRiPt:x", "&#106;avascript:x", "&#x6A;avascript:x", "&#X76iew-source:x", " \tjavascript:x", "\x01javascript:x", "jav&#x0A;ascript:x", "java\x00script:x", "&#0000106avascript:x", "\x7fdata:x", "\xa0vbscript:x", "VIEW-SOURCE:x", "d&#97;ta:x", "&#9;javascript:x"}
-	xssMarkup   = []string{"<!doctype html>", "<!DOCTYPE x", "<!DocType", "<!ENTITY x>", "<!entity", "<![if IE]>", "<!--[if gte IE 4]>", "<!--[IF x]>", "<?import x>", "<?IMPORT x", "<?xml version>", "<?XML x", "<?xml-stylesheet href=x?>", "<!--`-->", "<%`%>", "<!`>", "<?`"}
+	xssMarkup   = []string{"<!doctype html>", "<!DOCTYPE x", "<!DocType", "<!ENTITY x>", "<!entity", "<![if IE]>", "<!--[if gte IE 4]>", "<!--[IF x]>", "<?import x>", "<?IMPORT x", "<?xml version>", "<?XML x", "<?xml-stylesheet href=x?>", "<!--`-->", "<%`%>", "<!`>", "<?`",
+		"<?xml >", "<?XmL >", "<![if]>", "<![iF ]>", "<%xml %>", "<!--[if]-->", "<?import>", "<!ENTITY>", "<?xml x", "<![if x"}
 )
 
 var (
